@@ -1,3 +1,4 @@
+import re
 """A10 (numeric side conditions of the panic inventory): two small, sound-by-construction engines over value expressions.
 
 1. Intervals: an expression tree is evaluated over [lo, hi] using only the types of its leaves, constants, and the documented
@@ -209,6 +210,12 @@ class Numeric:
             if op == "Sub" and const_int(b) is not None:
                 base, off = self.lin(a, depth + 1)
                 return (base, off - const_int(b))
+        if depth < 12 and v[0] == "call" and (v[1] or "").endswith("Option::<T>::unwrap_or") and len(v[2]) == 2 and v[2][0][0] == "place" \
+                and self.use_block is not None:
+            # `o.unwrap_or(d)` where o is known to be Some at the point of use: the payload
+            for cand in self._aliases(v[2][0][1]):
+                if self.g.variant_guarded(cand, True, self.use_block):
+                    return self.lin(("place", (v[2][0][1][0], tuple(v[2][0][1][1]) + (("d", "Some"), ("f", 0, "0")))), depth + 1)
         ck = _const_array_len(v)
         if ck is not None:
             return (ZERO, ck)
@@ -229,6 +236,19 @@ class Numeric:
         key = repr(v)
         self._vals[key] = v
         return (("val", key), 0)
+
+    def _aliases(self, pk):
+        """the place and the places it was moved into unchanged (`(a, b)` tuple fields matched instead of the locals themselves)"""
+        out = [self.du.canon(pk)]
+        l, proj = pk
+        if not proj:
+            for bid, blk in self.du.blocks.items():
+                for st in blk["stmts"]:
+                    if st["k"] == "assign" and st["rv"]["k"] == "aggregate" and st["rv"].get("agg") == "tuple" and not st["place"]["p"]:
+                        for i, o in enumerate(st["rv"]["ops"]):
+                            if o.get("k") in ("copy", "move") and o["l"] == l and not o["p"]:
+                                out.append((st["place"]["l"], (("f", i, str(i)),)))
+        return out
 
     def _unmodified(self, place, since_block):
         block = self.use_block
@@ -394,7 +414,14 @@ class Numeric:
         return base, max(offs)
 
     def _builtin(self, nodes, cons, block=None):
-        for n in list(nodes):
+        done = set()
+        while len(done) < 400:
+            # nodes introduced by an earlier step (the end of a range whose item is compared) get their own constraints too
+            pending = [x for x in nodes if x not in done]
+            if not pending:
+                break
+            n = pending[0]
+            done.add(n)
             if n[0] == "len":
                 cons.append((ZERO, n, 0))
                 cons.append((n, ZERO, ISIZE_MAX))
@@ -504,11 +531,18 @@ class Numeric:
     def prove_le_len(self, v, place, c, block):
         """v - LEN(place) <= c"""
         self.use_block = block
+        # a fixed-size array: its length is the constant of its type
+        cp = self.du.canon(place)
+        if not cp[1]:
+            m = re.fullmatch(r"\[.+; (\d+)\]", (self.fn.local_ty(cp[0]) or "").lstrip("&").replace("mut ", ""))
+            if m:
+                hi = self.upper_bound(v, block)
+                return hi is not None and hi - int(m.group(1)) <= c
         base, off = self.lin(v)
         return self._prove(base, ("len", self.du.canon(place)), c - off, block)
 
     # ------------------------------------------------------------- obligations
-    def upper_bound(self, v, block):
+    def upper_bound(self, v, block, depth=0):
         """best known upper bound of v at block (interval, tightened by constraints to ZERO)"""
         self.use_block = block
         iv = self.interval(v)
@@ -520,9 +554,21 @@ class Numeric:
         d = self._dist(ZERO, base, block)            # base - 0 <= d
         if d is not None and (hi is None or d + off < hi):
             hi = d + off
+        # `a - b` / `a + b` of two bounded values (`4 - padding` where `padding <= 2` has been established)
+        w = strip_widening(self.fn, v)
+        if w[0] == "binop" and depth < 4:
+            op = w[1].replace("WithOverflow", "").replace("Unchecked", "")
+            if op == "Sub":
+                x, y = self.upper_bound(w[2], block, depth + 1), self.lower_bound(w[3], block, depth + 1)
+                if x is not None and y is not None and (hi is None or x - y < hi):
+                    hi = x - y
+            elif op == "Add":
+                x, y = self.upper_bound(w[2], block, depth + 1), self.upper_bound(w[3], block, depth + 1)
+                if x is not None and y is not None and (hi is None or x + y < hi):
+                    hi = x + y
         return hi
 
-    def lower_bound(self, v, block):
+    def lower_bound(self, v, block, depth=0):
         self.use_block = block
         iv = self.interval(v)
         lo = iv[0] if iv else None
@@ -532,6 +578,17 @@ class Numeric:
         d = self._dist(base, ZERO, block)            # 0 - base <= d, i.e. base >= -d
         if d is not None and (lo is None or -d + off > lo):
             lo = -d + off
+        w = strip_widening(self.fn, v)
+        if w[0] == "binop" and depth < 4:
+            op = w[1].replace("WithOverflow", "").replace("Unchecked", "")
+            if op == "Sub":
+                x, y = self.lower_bound(w[2], block, depth + 1), self.upper_bound(w[3], block, depth + 1)
+                if x is not None and y is not None and (lo is None or x - y > lo):
+                    lo = x - y
+            elif op == "Add":
+                x, y = self.lower_bound(w[2], block, depth + 1), self.lower_bound(w[3], block, depth + 1)
+                if x is not None and y is not None and (lo is None or x + y > lo):
+                    lo = x + y
         return lo
 
 
